@@ -4,8 +4,8 @@ from .. import env, coq, runner
 
 LEVEL = 'proof'
 META = dict(
-    text='Coq theorems (unbounded): bit packing round-trips for every number of repetitions with zero padding and little-endian-in-byte order; the constants-table interning scheme of the circuit serializer round-trips every circuit over abstract leaves with decidable equality, shares an index exactly between equal items and only refers backwards; result messages (keys x instances x qubits x packed repetitions) round-trip; the qubit id codec (qubit_to_proto_id / qubit_from_proto_id: decimal printing, split on underscores, the grid pattern, int()) reads back every grid, line, named and coupler qubit of the documented vocabulary for all signed coordinates, ids of the vocabulary never collide, and the unrestricted statement is refuted (a named qubit called 3); the device read from a DeviceSpecification holds a coupling exactly where a SYMMETRIC target set lists the two ids in either order (target sets of any other ordering and targets of any other size add nothing), its validate_operation accepts a two-qubit gate exactly on those couplings and measurement / wait on any device qubits, and to_proto writes a specification of the same qubits and couplings that reads back as the same device. The Gallina models are hand-written in the shape of the code and evaluated with vm_compute against the implementation on every run, together with direct round-trip oracles on the real serializers for circuits, sweeps, run contexts, results and device specifications.',
-    note='Trusted: Coq kernel; protobuf and numpy; the Python adapters in vf/checks/c16.py (calling cirq_google, assigning leaf identifiers by Python equality, printing Gallina literals); the leaf codecs (gate arguments, tags, conditions) are compared on generated cases, not proved; the qubit id model covers ASCII ids only; the device model covers qubits, target sets and couplings (gates, durations and qubit attributes of a specification are judged by the Python oracle against device.proto); sweep values that carry units (tunits) are judged as physical quantities up to one single-precision rounding of the stored magnitude (2^-22 relative, 1e-12 with use_float64). Theorems are closed under the global context.',
+    text='Coq theorems (unbounded): bit packing round-trips for every number of repetitions with zero padding and little-endian-in-byte order; the constants-table interning scheme of the circuit serializer round-trips every circuit over abstract leaves with decidable equality, shares an index exactly between equal items and only refers backwards; result messages (keys x instances x qubits x packed repetitions) round-trip; the qubit id codec (qubit_to_proto_id / qubit_from_proto_id: decimal printing, split on underscores, the grid pattern, int()) reads back every grid, line, named and coupler qubit of the documented vocabulary for all signed coordinates, ids of the vocabulary never collide, and the unrestricted statement is refuted (a named qubit called 3); the device read from a DeviceSpecification holds a coupling exactly where a SYMMETRIC target set lists the two ids in either order (target sets of any other ordering and targets of any other size add nothing), its validate_operation accepts a two-qubit gate exactly on those couplings and measurement / wait on any device qubits, and to_proto writes a specification of the same qubits and couplings that reads back as the same device; an array-valued argument, modelled as a strided view on a buffer (any strides: C- or Fortran-contiguous, transposed, sliced, reversed, broadcast; any offset), is written as its shape and its elements in the row-major order of their indices and reads back, for every shape with at least one axis, to an array with the same element at every index, the message depends on the elements at the indices only and never on the memory layout, bit arrays (most significant bit first, zero padded) round-trip, and the statement for zero-dimensional arrays is refuted (an empty shape field is read as an unset message); find_measurements accepts a program exactly with one entry per key whose qubits, order, invert mask and tags are those of EVERY operation writing to the key, accepts every program that measures each key alike on grid qubits, and for an accepted program the result message holds, under the id of the c-th qubit of the j-th operation of a key, at position r * instances + j, the bit the record has at [r][j][c]. The Gallina models are hand-written in the shape of the code and evaluated with vm_compute against the implementation on every run, together with direct round-trip oracles on the real serializers for circuits, sweeps, run contexts, results, simulated programs with repeated measurement keys, array-valued arguments and device specifications.',
+    note='Trusted: Coq kernel; protobuf and numpy; the Python adapters in vf/checks/c16.py (calling cirq_google, assigning leaf identifiers by Python equality, printing Gallina literals); the leaf codecs (gate arguments, tags, conditions) are compared on generated cases, not proved; the qubit id model covers ASCII ids only; array elements are abstract in the model (the byte image of one number and its endianness are compared on generated cases through numpy); the simulator (cirq.Simulator) is the reference for what a program records; the device model covers qubits, target sets and couplings (gates, durations and qubit attributes of a specification are judged by the Python oracle against device.proto); sweep values that carry units (tunits) are judged as physical quantities up to one single-precision rounding of the stored magnitude (2^-22 relative, 1e-12 with use_float64). Theorems are closed under the global context.',
     technique='Rocq/Coq proof over executable Gallina models of pack_bits, the constants table and result messages + vm_compute correspondence and round-trip oracles against cirq_google',
 )
 
@@ -2095,6 +2095,566 @@ def device_specs_stream(ctx, cirq, cg, v2, n):
                                 f'implementation device {row["device"]}, to_proto targets {row["out_targets"]}')
 
 
+# ------------------------------------------------------------------ array-valued arguments (ndarrays.py)
+ND_DTYPES = ['f8', 'f4', 'f2', 'i8', 'i4', 'i2', 'i1', 'u1', 'c16', 'c8', '?']
+# message type -> (element type it stores, array types the helper documents it accepts: same kind, not wider)
+ND_HELPERS = [('float64', 'f8', ['f8', 'f4', 'f2']), ('float32', 'f4', ['f4', 'f2']), ('float16', 'f2', ['f2']),
+              ('int64', 'i8', ['i8', 'i4', 'i2', 'i1']), ('int32', 'i4', ['i4', 'i2', 'i1']), ('int16', 'i2', ['i2', 'i1']), ('int8', 'i1', ['i1']),
+              ('uint8', 'u1', ['u1']), ('complex128', 'c16', ['c16', 'c8']), ('complex64', 'c8', ['c8'])]
+ND_FIELD = {'f8': 'float64_array', 'f4': 'float32_array', 'f2': 'float16_array', 'i8': 'int64_array', 'i4': 'int32_array', 'i2': 'int16_array',
+            'i1': 'int8_array', 'u1': 'uint8_array', 'c16': 'complex128_array', 'c8': 'complex64_array', '?': 'bit_array'}
+ND_UNSUPPORTED = ['u2', 'u4', 'u8']          # no message type: must be refused or carried, not dropped
+ND_SHAPES = [(3, 4), (3, 3), (1, 5), (5, 1), (2, 3, 4), (2, 2, 2), (2, 0, 3), (0,), (7,), ()]
+
+
+def nd_values(dtype, n):
+    """n values of a type, pairwise different wherever the type has room (exact in half precision, both signs, both parts of a
+    complex number), so that an element that moves is an element that changes."""
+    dt = np.dtype(dtype)
+    k = np.arange(n, dtype=np.int64)
+    if dt.kind == 'b':
+        return ((k * 7 + k // 3) % 5 < 2)
+    if dt.kind == 'u':
+        return ((k * 3 + 1) % 251).astype(dt) if dt.itemsize == 1 else (k * 1009 + 1).astype(dt)
+    if dt.kind == 'i':
+        return (k - n // 2).astype(dt)
+    if dt.kind == 'f':
+        return ((k - n // 2) * 0.5).astype(dt)
+    return ((k - n // 2) * 0.5 + 1j * ((n - k) * 0.25)).astype(dt)
+
+
+def nd_build(rc):
+    """The array of a recipe: values laid out in a base buffer (C or Fortran order, native or swapped byte order), then an
+    axis permutation, a slice per axis (any start, any step, either direction), optionally broadcast along a new leading
+    axis or copied into Fortran order."""
+    dt = np.dtype(rc['dtype'])
+    bs = tuple(rc['base_shape'])
+    n = int(np.prod(bs)) if bs else 1
+    vals = np.asarray(nd_values(dt, n))
+    if rc.get('swap'):
+        vals = vals.astype(dt.newbyteorder('>'))
+    base = vals.reshape(bs, order=rc.get('order', 'C'))
+    a = base.transpose(rc['perm']) if bs else base
+    a = a[tuple(slice(*sl) for sl in rc['slices'])] if bs else a
+    if rc.get('bcast') is not None:
+        a = np.broadcast_to(a, (rc['bcast'],) + a.shape)
+    if rc.get('asfortran'):
+        a = np.asfortranarray(a)
+    return a
+
+
+def nd_recipe(dtype, shape, layout, rng=None):
+    """A recipe that yields an array of the given shape in the given layout; None when the layout does not apply."""
+    nd = len(shape)
+    ident = list(range(nd))
+    full = [[None, None, None]] * nd
+    rc = dict(dtype=dtype, base_shape=list(shape), perm=ident, slices=full, layout=layout)
+    if layout == 'C':
+        return rc
+    if layout == 'F-allocated':
+        return dict(rc, order='F')
+    if layout == 'asfortranarray':
+        return dict(rc, asfortran=True)
+    if layout == 'transposed':
+        return dict(rc, base_shape=list(shape[::-1]), perm=ident[::-1])
+    if layout.startswith('axes'):
+        perm = [int(ch) for ch in layout[4:]]
+        if len(perm) != nd:
+            return None
+        bs = [0] * nd
+        for i, p_ in enumerate(perm):
+            bs[p_] = shape[i]
+        return dict(rc, base_shape=bs, perm=perm)
+    if layout == 'every-other':
+        return dict(rc, base_shape=[2 * d + 1 for d in shape], slices=[[1, None, 2]] * nd) if nd else None
+    if layout == 'reversed':
+        return dict(rc, slices=[[None, None, -1]] * nd) if nd else None
+    if layout == 'last-axis-reversed':
+        return dict(rc, slices=[[None, None, None]] * (nd - 1) + [[None, None, -1]]) if nd else None
+    if layout == 'window':
+        return dict(rc, base_shape=[d + 2 for d in shape], slices=[[1, d + 1, None] for d in shape]) if nd else None
+    if layout == 'transposed-every-other':
+        return dict(rc, base_shape=[2 * d + 1 for d in shape[::-1]], perm=ident[::-1], slices=[[1, None, 2]] * nd) if nd else None
+    if layout == 'broadcast':
+        return dict(rc, base_shape=list(shape[1:]), perm=ident[:-1], slices=full[:-1], bcast=shape[0]) if nd else None
+    if layout == 'swapped-bytes':
+        return dict(rc, swap=True)
+    if layout == 'swapped-bytes-transposed':
+        return dict(rc, base_shape=list(shape[::-1]), perm=ident[::-1], swap=True)
+    if layout == 'random':
+        perm = ident[:]
+        rng.shuffle(perm)
+        bs, sl = [0] * nd, []
+        for i, p_ in enumerate(perm):
+            step = rng.choice([1, 1, 2, -1, -2, 3])
+            lead, trail = rng.choice([0, 0, 1]), rng.choice([0, 0, 1])
+            d = shape[i]
+            bs[p_] = lead + (abs(step) * (d - 1) + 1 if d else rng.choice([0, 1])) + trail
+            if step > 0:
+                sl.append([lead, lead + abs(step) * (d - 1) + 1 if d else lead, step])
+            else:
+                hi = lead + abs(step) * (d - 1) if d else lead
+                sl.append([hi, (lead - 1) if lead >= 1 else None, step] if d else [lead, lead, 1])
+        return dict(rc, base_shape=bs, perm=perm, slices=sl, order=rng.choice(['C', 'C', 'F']), asfortran=rng.random() < 0.1)
+    raise ValueError(layout)
+
+
+ND_LAYOUTS = ['C', 'F-allocated', 'asfortranarray', 'transposed', 'axes120', 'axes201', 'axes021', 'axes102', 'axes10', 'every-other', 'reversed',
+              'last-axis-reversed', 'window', 'transposed-every-other', 'broadcast']
+
+
+def nd_layout_text(a):
+    fl = a.flags
+    kind = ('C- and Fortran-contiguous' if fl.c_contiguous and fl.f_contiguous else 'C-contiguous' if fl.c_contiguous
+            else 'Fortran-contiguous, not C-contiguous' if fl.f_contiguous else 'not contiguous')
+    return f'{kind}, shape {a.shape}, strides {a.strides} bytes, dtype {a.dtype.str}'
+
+
+def nd_diff(a, b, same_dtype=None):
+    """None when b is the array a read back (same shape, same kind of numbers -- the same type when asked -- and the same
+    element at every index); else what differs."""
+    if not isinstance(b, np.ndarray):
+        return f'came back as {b!r} ({type(b).__name__}), not an array'
+    if b.shape != a.shape:
+        return f'shape {a.shape} came back as {b.shape}'
+    if b.dtype.kind != a.dtype.kind or (same_dtype is not None and b.dtype.newbyteorder('=') != np.dtype(same_dtype).newbyteorder('=')):
+        return f'element type {a.dtype} came back as {b.dtype}'
+    for idx in np.ndindex(*a.shape):
+        if not (a[idx] == b[idx]):
+            return f'element {list(idx)} is {a[idx].item()!r}, came back {b[idx].item()!r}'
+    return None
+
+
+def nd_literal(rc):
+    return 'nd_build(%r)' % ({k: v for k, v in rc.items() if k != 'layout'},)
+
+
+def nd_memory(a):
+    """(element strides, element offset, the memory the array is a view of as a flat array) -- read off the array object."""
+    own = a
+    while isinstance(own.base, np.ndarray):
+        own = own.base
+    if own.size == 0 or a.size == 0:
+        return [0] * a.ndim, 0, np.zeros((0,), dtype=a.dtype)
+    mem = own.ravel(order='K')
+    if mem.size != own.size or not (own.flags.c_contiguous or own.flags.f_contiguous):
+        return None
+    isz = a.dtype.itemsize
+    off = a.__array_interface__['data'][0] - own.__array_interface__['data'][0]
+    if off % isz or any(s_ % isz for s_ in a.strides):
+        return None
+    strides, off = [s_ // isz for s_ in a.strides], off // isz
+    for idx in list(np.ndindex(*a.shape))[:4] + list(np.ndindex(*a.shape))[-2:]:       # the view really is what we say it is
+        if not (mem[off + sum(i * s_ for i, s_ in zip(idx, strides))] == a[idx]):
+            return None
+    return strides, off, mem
+
+
+def nd_wire_elements(field, arr_msg):
+    """The elements a message holds, in wire order, decoded from the message alone (ndarrays.proto: shape, endianness with
+    0 = little and 1 = big, flat bytes; 8-bit types have no endianness)."""
+    base = {v: k for k, v in ND_FIELD.items()}[field]
+    dt = np.dtype(base)
+    if dt.itemsize > 1:
+        dt = dt.newbyteorder('>' if getattr(arr_msg, 'endianness', 0) == 1 else '<')
+    return np.frombuffer(arr_msg.flat_bytes, dtype=dt)
+
+
+def nd_check_array(cirq, cg, rc, report, count=None, in_program=True):
+    """Every round trip of one array.  report(signature, what, replay) is called for each failure; returns (array, the Arg
+    message arg_to_proto wrote or None)."""
+    from cirq_google.api.v2 import ndarrays
+    from cirq_google.serialization import arg_func_langs as afl
+    S = cg.CIRCUIT_SERIALIZER
+    q0 = cirq.GridQubit(0, 0)
+    a = nd_build(rc)
+    dtype = rc['dtype']
+    own = dtype if dtype in ND_DTYPES else None
+    nontriv = a.ndim >= 2 and a.size >= 4 and not a.flags.c_contiguous
+
+    def attempt(write, read):
+        """('ok', what is read back) | ('refused', why: ValueError while writing) | ('raised', other error while writing) |
+        ('unreadable', error while reading what was written without complaint)."""
+        try:
+            m = write()
+        except ValueError as e:
+            return 'refused', str(e)[:160]
+        except Exception as e:
+            return 'raised', f'{type(e).__name__}: {str(e)[:160]}'
+        try:
+            return 'ok', read(m)
+        except Exception as e:
+            return 'unreadable', f'{type(e).__name__}: {str(e)[:160]}'
+
+    def judge(a, entry, status, back, same_dtype=None, note=''):
+        """One round trip: refusal (ValueError) is allowed only for what the format has no room for; whatever is accepted must
+        come back element by element."""
+        rp = dict(kind='ndarray', recipe=dict(rc), entry=entry)
+        desc = f'a = {nd_literal(rc)}{note} ({rc["layout"]}: {nd_layout_text(a)})'
+        supported = dtype in ND_DTYPES and not rc.get('swap') and a.ndim > 0       # (an empty shape field means an unset message)
+        if status == 'ok':
+            why = nd_diff(a, back, same_dtype)
+            if why is None:
+                return True
+            if back is None or (isinstance(back, np.ndarray) and back.dtype == object):
+                report('ndarray:unsupported-dtype-dropped' if not supported else 'ndarray:dropped',
+                       f'{entry}: an array of type {a.dtype.str} is written without complaint and comes back as {back!r}; {desc}', rp)
+                return False
+            moved = (isinstance(back, np.ndarray) and back.shape == a.shape and a.size > 0
+                     and sorted(map(repr, a.ravel().tolist())) == sorted(map(repr, back.ravel().tolist())))
+            report('ndarray:elements-permuted' if moved else 'ndarray:roundtrip',
+                   f'{entry}: the array read back differs from the array written: {why}; {desc}; sent {a.tolist()!r} got {back.tolist()!r}'[:1500], rp)
+            return False
+        if status == 'unreadable' and a.ndim == 0:
+            report('ndarray:zero-dim-unreadable', f'{entry}: a zero-dimensional array is written without complaint (the shape field stays empty) and the message cannot be '
+                   f'read: {back}; {desc}', rp)
+            return False
+        if status == 'refused' and not supported:
+            return True                     # the format has no room for it, and says so
+        report('ndarray:' + status, f'{entry}: {"writing raises" if status != "unreadable" else "written without complaint, reading raises"} {back}; {desc}', rp)
+        return False
+
+    # 1. the generic argument encoding
+    holder = {}
+
+    def write_arg():
+        holder['m'] = afl.arg_to_proto(a)
+        return holder['m']
+    st, back = attempt(write_arg, afl.arg_from_proto)
+    judge(a, 'arg_from_proto(arg_to_proto(a))', st, back, same_dtype=own)
+    # 2. the helpers, with every widening they document (what they cannot hold must be refused, not cut)
+    for name, elem, accepted in ND_HELPERS:
+        if np.dtype(dtype).kind != np.dtype(elem).kind:
+            continue
+        to_f, from_f = getattr(ndarrays, f'to_{name}_array'), getattr(ndarrays, f'from_{name}_array')
+        st, back = attempt(lambda: to_f(a), from_f)
+        entry = f'from_{name}_array(to_{name}_array(a))'
+        if dtype in accepted:
+            ok = judge(a, entry, st, back, same_dtype=elem)
+            if count:
+                count('ndarray:helper', [name, {k: v for k, v in rc.items() if k != 'layout'}], nontriv and ok)
+        elif st == 'ok' and a.ndim and nd_diff(a, back) is not None:
+            report('ndarray:narrowing-accepted', f'{entry}: an array of type {a.dtype.str}, which the message cannot hold, is accepted and comes back changed: {nd_diff(a, back)}; '
+                   f'a = {nd_literal(rc)}', dict(kind='ndarray', recipe=dict(rc), entry=entry))
+    if dtype in ('?', 'u1'):
+        bits = a if dtype == '?' else (a % 2)
+        st, back = attempt(lambda: ndarrays.to_bitarray(bits), ndarrays.from_bitarray)
+        if st == 'ok' and isinstance(back, np.ndarray) and back.dtype.kind in 'bu':
+            back = back.astype(bits.dtype)
+        judge(bits, 'from_bitarray(to_bitarray(a))', st, back, note=' % 2' if dtype == 'u1' else '')
+    # 3. as an argument of an InternalGate / InternalTag, on their own and inside a program
+    gate = cg.InternalGate('Pulse', 'internal.module', 1, envelope=a, other=0.5)
+    st, back = attempt(lambda: afl.internal_gate_arg_to_proto(gate), lambda m: afl.internal_gate_from_proto(m).gate_args.get('envelope'))
+    judge(a, "internal_gate_from_proto(internal_gate_arg_to_proto(InternalGate(.., envelope=a))).gate_args['envelope']", st, back, same_dtype=own)
+    tag = cg.InternalTag(name='Shape', package='internal.module', samples=a)
+    st, back = attempt(tag.to_proto, lambda m: cg.InternalTag.from_proto(m).tag_args.get('samples'))
+    judge(a, "InternalTag.from_proto(InternalTag(.., samples=a).to_proto()).tag_args['samples']", st, back, same_dtype=own)
+    if in_program:
+        for what, circuit, pick in [('InternalGate argument', cirq.Circuit(gate.on(q0)), lambda d: next(iter(d.all_operations())).gate.gate_args.get('envelope')),
+                                    ('InternalTag argument', cirq.Circuit(cirq.X(q0).with_tags(tag)), lambda d: next(iter(d.all_operations())).tags[0].tag_args.get('samples'))]:
+            st, back = attempt(lambda: S.serialize(circuit), lambda m: pick(S.deserialize(m)))
+            if st == 'raised' and 'unhashable' in str(back):
+                report('circuit:internal-args-unhashable', f'a program with an array-valued {what} cannot be serialized: serialize raises {back} (the constants table hashes the '
+                       f'operation, whose value equality holds the argument dict as it is); a = {nd_literal(rc)}', dict(kind='ndarray', recipe=dict(rc), entry='program: ' + what))
+            else:
+                judge(a, f'program with an {what}: deserialize(serialize(c))', st, back, same_dtype=own)
+    return a, holder.get('m')
+
+
+def replay_ndarray(cirq, cg, data):
+    problems = []
+    a, _ = nd_check_array(cirq, cg, data['recipe'], lambda sig, what, rp: problems.append((sig, what, rp)))
+    print('a =', nd_literal(data['recipe']), '|', nd_layout_text(a))
+    hit = [p_ for p_ in problems if p_[2].get('entry') == data['entry']] if data.get('entry') else problems
+    for sig, what, _ in hit:
+        print(sig, '|', what[:800])
+    return not hit
+
+
+def ndarrays_stream(ctx, cirq, cg, n):
+    """Array-valued arguments: every element type x every shape x every memory layout, through every way an array reaches the
+    wire (the to_*_array helpers with widening, arg_to_proto, an InternalGate argument, an InternalTag argument, a program)."""
+    rng = ctx.rng
+    recipes = []
+    for dtype in ND_DTYPES:
+        for shape in ND_SHAPES:
+            for layout in ND_LAYOUTS:
+                rc = nd_recipe(dtype, shape, layout)
+                if rc is not None:
+                    recipes.append(rc)
+    for dtype in ND_DTYPES + ND_UNSUPPORTED:
+        for shape in [(3, 4), (2, 3, 4), (5,)]:
+            for layout in (['swapped-bytes', 'swapped-bytes-transposed'] if dtype in ND_DTYPES else ['C', 'transposed']):
+                if np.dtype(dtype).itemsize > 1:
+                    recipes.append(nd_recipe(dtype, shape, layout))
+    for _ in range(n):
+        nd = rng.choice([1, 2, 2, 3, 3, 4])
+        shape = tuple(rng.choice([0, 1, 2, 2, 3, 3, 4, 5]) for _ in range(nd))
+        recipes.append(nd_recipe(rng.choice(ND_DTYPES), shape, 'random', rng))
+    rows, bitrows = [], []
+    for case, rc in enumerate(recipes):
+        dtype = rc['dtype']
+        a, m = nd_check_array(cirq, cg, rc, ctx.violation, ctx.count, in_program=(case % 7 == 0 or rc['layout'] in ('C', 'transposed')))
+        nontriv = a.ndim >= 2 and a.size >= 4 and not a.flags.c_contiguous
+        ctx.count('ndarray:arg', [{k: v for k, v in rc.items() if k != 'layout'}], nontriv,
+                  sample=dict(recipe=nd_literal(rc), layout=nd_layout_text(a), values=a.tolist() if 0 < a.size <= 12 and a.dtype.kind != 'c' else None))
+        # the message itself against the model (Codec/NdArray.v): the shape, and the elements in the C order of the indices
+        if m is None or dtype not in ND_DTYPES or rc.get('swap'):
+            continue
+        field = m.arg_value.ndarray_value.WhichOneof('arr')
+        if field != ND_FIELD[dtype]:
+            ctx.violation('ndarray:message-type', f'arg_to_proto writes an array of type {a.dtype.str} into the field {field!r} (expected {ND_FIELD[dtype]!r}); a = {nd_literal(rc)}',
+                          dict(kind='ndarray', recipe=dict(rc), entry='arg_to_proto'))
+            continue
+        am = getattr(m.arg_value.ndarray_value, field)
+        memo = nd_memory(a)
+        if memo is None:
+            continue
+        strides, off, mem = memo
+        codes = {}
+        code = lambda x: codes.setdefault(x.item() if hasattr(x, 'item') else x, len(codes))
+        view = f'(mkV {coq.zlist(a.shape)}%nat {coq.zlist(strides)} {coq.zlit(off)})'
+        if dtype == '?':
+            bitrows.append((coq.blist(bool(x) for x in mem), view, coq.zlist(am.shape) + '%nat', coq.zlist(am.flat_bytes), rc))
+        else:
+            wire = nd_wire_elements(field, am)
+            rows.append((coq.zlist(code(x) for x in mem), view, coq.zlist(am.shape) + '%nat', coq.zlist(code(x) for x in wire), rc))
+        ctx.count('ndarray:message', [{k: v for k, v in rc.items() if k != 'layout'}], nontriv)
+    head = ('From Coq Require Import ZArith List Bool.\nFrom VF Require Import Codec.NdArray Base.Harness.\nImport ListNotations.\nOpen Scope Z_scope.\n')
+    for shard in range(0, len(rows), 450):
+        part = rows[shard:shard + 450]
+        text = head + 'Definition cs : list (list Z * view * list nat * list Z) := [\n' + ';\n'.join(f'({b}, {v}, {sh}, {w})' for b, v, sh, w, _ in part) + '].\n'
+        text += ('Eval vm_compute in failing (fun c => match c with (b, v, sh, w) => nl_eqb (fst (to_msg (-1) b v)) sh && zl_eqb (snd (to_msg (-1) b v)) w end) cs.\n')
+        vals = coq.parse_evals(coq.coq_eval(f'c16_ndarrays_{ctx.seed}_{shard}', text))
+        for idx in coq.parse_nat_list(vals[0]):
+            rc = part[idx][4]
+            ctx.mark_broken('correspondence:to_array', f'the message written for a = {nd_literal(rc)} ({rc["layout"]}: {nd_layout_text(nd_build(rc))}) is not shape + elements in the C order of the '
+                            f'indices: model input {part[idx][:2]}, message shape {part[idx][2]} elements {part[idx][3][:300]}')
+    for shard in range(0, len(bitrows), 450):
+        allbits, bitrows = bitrows, bitrows[shard:shard + 450]
+        text = head + 'Definition cs : list (list bool * view * list nat * list Z) := [\n' + ';\n'.join(f'({b}, {v}, {sh}, {w})' for b, v, sh, w, _ in bitrows) + '].\n'
+        text += ('Eval vm_compute in failing (fun c => match c with (b, v, sh, w) => nl_eqb (fst (to_bitmsg false b v)) sh && zl_eqb (snd (to_bitmsg false b v)) w end) cs.\n')
+        vals = coq.parse_evals(coq.coq_eval(f'c16_bitarrays_{ctx.seed}_{shard}', text))
+        for idx in coq.parse_nat_list(vals[0]):
+            rc = bitrows[idx][4]
+            ctx.mark_broken('correspondence:to_bitarray', f'the bit array message written for a = {nd_literal(rc)} ({rc["layout"]}) is not shape + bits in the C order of the indices, '
+                            f'most significant first: message {bitrows[idx][2]} {bitrows[idx][3][:300]}')
+        bitrows = allbits
+
+
+# ------------------------------------------------------------------ result messages of measured programs
+def le_bits(data, n):
+    """Bit i of a packed result, little-endian within a byte (result.proto: QubitMeasurementResult.results)."""
+    return [bool((data[i // 8] >> (i % 8)) & 1) if i // 8 < len(data) else None for i in range(n)]
+
+
+def measurement_ops_of(cirq, circuit, key):
+    return [op for op in circuit.all_operations() if isinstance(op.gate, cirq.MeasurementGate) and op.gate.key == key]
+
+
+def program_measured_alike(cirq, circuit):
+    """Every key is measured the same way each time it is measured (same qubits in the same order, same invert mask, same
+    tags), on grid qubits: the documented form of a repeated key, which must be accepted."""
+    seen = {}
+    for op in circuit.all_operations():
+        if isinstance(op.gate, cirq.MeasurementGate):
+            if not all(isinstance(q, cirq.GridQubit) for q in op.qubits):
+                return False
+            d = (tuple(op.qubits), tuple(op.gate.full_invert_mask()), tuple(op.tags))
+            if seen.setdefault(op.gate.key, d) != d:
+                return False
+    return True
+
+
+def judge_measured_program(cirq, v2, circuit, reps, sim_seed):
+    """The property on one program: simulate it, describe its measurements with find_measurements, write the result message
+    and read the message by its documentation: the bits filed under a qubit id must be what the simulator recorded for that
+    qubit, instance by instance; and the message must read back to the records.  A program may be refused (ValueError) unless
+    it measures every key alike each time.  Returns (status, problems)."""
+    problems = []
+    try:
+        infos = v2.find_measurements(circuit)
+    except ValueError as e:
+        if program_measured_alike(cirq, circuit):
+            problems.append(('results:program-refused', f'find_measurements refuses a program that measures every key the same way each time: {str(e)[:200]}'))
+        return 'refused', problems
+    keys = list(dict.fromkeys(op.gate.key for op in circuit.all_operations() if isinstance(op.gate, cirq.MeasurementGate)))
+    if sorted(m.key for m in infos) != sorted(keys):
+        problems.append(('results:measurement-keys', f'find_measurements lists the keys {[m.key for m in infos]}, the program measures {keys}'))
+        return 'accepted', problems
+    try:
+        result = cirq.Simulator(seed=sim_seed).run(circuit, repetitions=reps)
+    except Exception as e:
+        problems.append(('results:unsimulable-accepted', f'find_measurements accepts a program the simulator cannot record ({type(e).__name__}: {str(e)[:150]}): {[str(m) for m in infos]}'))
+        return 'accepted', problems
+    try:
+        msg = v2.results_to_proto([[result]], infos)
+    except Exception as e:
+        problems.append(('results:accepted-not-writable', f'results_to_proto raises {type(e).__name__}: {str(e)[:150]} for the simulator\'s result and find_measurements\' list {[str(m) for m in infos]}'))
+        return 'accepted', problems
+    pr = msg.sweep_results[0].parameterized_results[0]
+    if msg.sweep_results[0].repetitions != reps or sorted(mr.key for mr in pr.measurement_results) != sorted(keys):
+        problems.append(('results:message-keys', f'the message holds {msg.sweep_results[0].repetitions} repetitions of the keys {[mr.key for mr in pr.measurement_results]}; the program has {reps} of {keys}'))
+    for mr in pr.measurement_results:
+        ops = measurement_ops_of(cirq, circuit, mr.key)
+        instances = max(mr.instances, 1)
+        record = np.asarray(result.records[mr.key])            # (repetitions, instances, qubits in the order of each operation)
+        if instances != len(ops):
+            problems.append(('results:instances', f'key {mr.key!r}: the message says {instances} instances, the program measures it {len(ops)} times'))
+            continue
+        filed = {}
+        for qmr in mr.qubit_measurement_results:
+            r_, c_ = qmr.qubit.id.split('_')
+            filed.setdefault(cirq.GridQubit(int(r_), int(c_)), []).append(le_bits(qmr.results, reps * instances))
+        for j, op in enumerate(ops):
+            for c, qubit in enumerate(op.qubits):
+                truth = [bool(x) for x in record[:, j, c]]
+                got = [[col[r * instances + j] for r in range(reps)] for col in filed.get(qubit, [])]
+                if got != [truth]:
+                    problems.append(('results:bits-under-wrong-qubit',
+                                     f'key {mr.key!r}, instance {j} ({op!r}): the simulator recorded {[int(b) for b in truth]} for {qubit!r}; the message files under the id '
+                                     f'{"%d_%d" % (qubit.row, qubit.col)!r} ' + (f'{[int(b) for b in got[0]]}' if len(got) == 1 else f'{len(got)} entries')
+                                     + f' for that instance (find_measurements: {[(m.key, m.qubits, m.instances) for m in infos if m.key == mr.key]})'))
+                    break
+            else:
+                continue
+            break
+        extra = set(filed) - {q for op in ops for q in op.qubits}
+        if extra:
+            problems.append(('results:bits-under-wrong-qubit', f'key {mr.key!r}: the message files bits under {sorted(extra)!r}, which the key never measures'))
+    if not problems:
+        try:
+            back = v2.results_from_proto(msg, infos)[0][0]
+            for key in keys:
+                if not np.array_equal(np.asarray(back.records[key]), np.asarray(result.records[key])):
+                    problems.append(('results:program-roundtrip', f'key {key!r}: results_from_proto(results_to_proto(r, m), m) has the records {np.asarray(back.records[key]).astype(int).tolist()}, '
+                                     f'the simulator recorded {np.asarray(result.records[key]).astype(int).tolist()}'))
+                    break
+        except Exception as e:
+            problems.append(('results:program-roundtrip', f'results_from_proto raises {type(e).__name__}: {str(e)[:150]} on the message written for the program'))
+    return 'accepted', problems
+
+
+def measured_program(cirq, qubits, plan):
+    """plan: [(key, [qubit indices in the order listed], invert mask, tags, [indices to flip before it])]: every qubit starts
+    in |+>, so each repetition draws its own bits, each qubit its own column; flips between instances change the columns."""
+    ops = [cirq.H(q) for q in qubits]
+    for key, order, mask, tags, flips in plan:
+        ops += [cirq.X(qubits[i]) for i in flips]
+        m = cirq.measure(*[qubits[i] for i in order], key=key, invert_mask=tuple(mask))
+        ops.append(m.with_tags(*tags) if tags else m)
+    return cirq.Circuit(ops)
+
+
+def fixed_measured_plans():
+    """For every seed: one key measured 2 or 3 times on 2..4 qubits listed in the same / reversed / rotated order, with no
+    invert mask, a mask that follows the qubits, a mask that stays in place, a short mask; a second key on the same qubits in
+    another order; and the forms that must be accepted."""
+    out = []
+    for nq in (2, 3, 4):
+        ident = list(range(nq))
+        for oname, other in (('same order', ident), ('reversed', ident[::-1]), ('rotated', ident[1:] + ident[:1])):
+            for mname, mask in (('no invert mask', []), ('invert mask following the qubits', [i % 2 == 0 for i in ident]),
+                                ('invert mask staying in place', [i == 0 for i in ident]), ('short invert mask', [True])):
+                for inst in (2, 3):
+                    def mask_for(order):
+                        if mname == 'invert mask following the qubits':
+                            return [mask[i] for i in order]
+                        return mask
+                    plan = [('k', ident, mask_for(ident), (), [])]
+                    for j in range(1, inst):
+                        order = other if j % 2 else ident
+                        plan.append(('k', order, mask_for(order), (), [j % nq]))
+                    plan.append(('z', other, [], (), []))
+                    out.append((f'{nq} qubits, key k measured {inst} times, later instances {oname}, {mname}', nq, plan))
+    out.append(('two keys on permuted lists', 2, [('k0', [0, 1], [], (), []), ('k1', [1, 0], [], (), [])]))
+    out.append(('one key on other qubits', 3, [('k', [0, 1], [], (), []), ('k', [1, 2], [], (), [])]))
+    out.append(('tags differ', 2, [('k', [0, 1], [], ('t',), []), ('k', [0, 1], [], (), [])]))
+    out.append(('tags agree', 2, [('k', [1, 0], [True], ('t',), []), ('k', [1, 0], [True], ('t',), [0])]))
+    return out
+
+
+def gen_measured_plan(rng):
+    nq = rng.choice([2, 3, 3, 4, 5])
+    plan = []
+    for key in rng.sample(['a', 'b', 'm_0', 'key 3'], rng.choice([1, 1, 2, 3])):
+        k = rng.randint(1, nq)
+        order = rng.sample(range(nq), k)
+        mask = rng.choice([[], [], [rng.random() < 0.5 for _ in order], [True]])
+        tags = rng.choice([(), (), ('t',)])
+        inst = rng.choice([1, 2, 2, 3])
+        mode = rng.choice(['same', 'same', 'permuted', 'permuted', 'permuted-mask-in-place', 'other-qubits', 'mask-differs', 'tags-differ', 'mixed'])
+        for j in range(inst):
+            o, mk, tg = list(order), list(mask), tags
+            md = rng.choice(['same', 'permuted']) if mode == 'mixed' else mode
+            if j and md in ('permuted', 'permuted-mask-in-place') and k >= 2:
+                while o == order:
+                    rng.shuffle(o)
+                if md == 'permuted' and len(mask) == k:
+                    mk = [mask[order.index(i)] for i in o]
+            elif j and md == 'other-qubits':
+                o = rng.sample(range(nq), k)
+            elif j and md == 'mask-differs':
+                mk = [not b for b in mask] if mask else [True]
+            elif j and md == 'tags-differ':
+                tg = ('u',) if not tags else ()
+            plan.append((key, o, mk, tg, [i for i in range(nq) if rng.random() < 0.3]))
+    rng.shuffle(plan) if rng.random() < 0.3 else None
+    return nq, plan
+
+
+def measured_programs_stream(ctx, cirq, v2, n):
+    rng = ctx.rng
+    rows = []
+    todo = [(name, nq, plan, False) for name, nq, plan in fixed_measured_plans()] + [None] * n
+    tid = {}
+    for item in todo:
+        if item is None:
+            nq, plan = gen_measured_plan(rng)
+            name, line = 'generated', rng.random() < 0.05
+        else:
+            name, nq, plan, line = item
+        r0, c0 = rng.choice([0, 0, -1, 3]), rng.choice([0, 0, -2, 5])
+        qubits = [cirq.GridQubit(r0 + i // 3, c0 + i % 3) for i in range(nq)]
+        if line:
+            qubits[-1] = cirq.LineQubit(7)                 # results only speak of grid qubits: refused when measured
+        circuit = measured_program(cirq, qubits, plan)
+        reps = rng.choice([13, 13, 5, 9, 16, 1])
+        sim_seed = rng.randint(1, 10 ** 6)
+        status, problems = judge_measured_program(cirq, v2, circuit, reps, sim_seed)
+        repeated = any(len({tuple(o) for k_, o, *_ in plan if k_ == key}) > 1 for key in {p_[0] for p_ in plan})
+        ctx.count('results:measured_program', [repr(circuit), reps, sim_seed], repeated and reps % 8 != 0,
+                  sample=dict(kind=name, circuit=str(circuit)[:400], repetitions=reps, find_measurements=status))
+        for sig, what in problems:
+            ctx.violation(sig, f'{what}; program ({name}): {circuit_literal(circuit)}, {reps} repetitions, simulator seed {sim_seed}'[:2500],
+                          dict(kind='measured_program', literal=circuit_literal(circuit), repetitions=reps, sim_seed=sim_seed))
+        # the model of find_measurements (Codec/FindMeasurements.v) on the same program
+        ops = [op for op in circuit.all_operations() if isinstance(op.gate, cirq.MeasurementGate)]
+        kid = {}
+        K = lambda k: kid.setdefault(k, len(kid))
+        T = lambda t: tid.setdefault(t, len(tid))
+        qn = lambda q: _qid(q) if isinstance(q, cirq.GridQubit) else 10 ** 7 + q.x
+        lit = '[' + '; '.join(f'(mkOp {K(op.gate.key)} {coq.zlist(qn(q) for q in op.qubits)} {coq.blist(op.gate.full_invert_mask())} '
+                              f'{coq.zlist(T(t) for t in op.tags)} {"true" if all(isinstance(q, cirq.GridQubit) for q in op.qubits) else "false"})' for op in ops) + ']'
+        try:
+            infos = v2.find_measurements(circuit)
+            got = '[' + '; '.join(f'(mkMX (mkM {K(m.key)} {coq.zlist(qn(q) for q in m.qubits)} {m.instances}) {coq.blist(m.invert_mask)} {coq.zlist(T(t) for t in m.tags)})' for m in infos) + ']'
+        except ValueError:
+            got = None
+        rows.append((lit, got, circuit))
+    head = ('From Coq Require Import ZArith List Bool.\nFrom VF Require Import Codec.PackBits Codec.PackBitsResults Codec.FindMeasurements Base.Harness.\n'
+            'Import ListNotations.\nOpen Scope Z_scope.\n'
+            'Definition mx_eqb (a b : minfox) : bool := Z.eqb (x_key a) (x_key b) && zl_eqb (m_qubits (x_info a)) (m_qubits (x_info b)) '
+            '&& Nat.eqb (m_instances (x_info a)) (m_instances (x_info b)) && bl_eqb (x_invert a) (x_invert b) && zl_eqb (x_tags a) (x_tags b).\n')
+    for shard in range(0, len(rows), 450):
+        part = rows[shard:shard + 450]
+        text = head + 'Definition cs : list (list mop * option (list minfox)) := [\n' + ';\n'.join(f'({l}, {coq.opt(g)})' for l, g, _ in part) + '].\n'
+        text += 'Eval vm_compute in failing (fun c => opt_eqb (list_eqb mx_eqb) (find_measurements (fst c)) (snd c)) cs.\n'
+        vals = coq.parse_evals(coq.coq_eval(f'c16_find_measurements_{ctx.seed}_{shard}', text))
+        for idx in coq.parse_nat_list(vals[0]):
+            ctx.mark_broken('correspondence:find_measurements', f'model and implementation differ on {circuit_literal(part[idx][2])}: model input {part[idx][0]}, implementation {part[idx][1]}'[:2500])
+
+
 def run(ctx):
     mods = env.import_cirq(('cirq_google',))
     cirq, cg = mods['cirq'], mods['cirq_google']
@@ -2109,7 +2669,12 @@ def run(ctx):
                 'written out, and DeviceSpecification messages written directly: 1..9 qubits of a 3x3 grid, 0..4 target sets of ordering '
                 'SYMMETRIC / SUBSET_PERMUTATION / UNSPECIFIED (ASYMMETRIC and other defects: must be refused) with targets of one, two, '
                 'three or all ids, any gates and durations, qubit attributes; a fixed grid (ordering x target size x with / without pair sets, '
-                'two-qubit devices, pair sets reversed / repeated / split) for every seed; every pair of device qubits in both orders goes '
+                'two-qubit devices, pair sets reversed / repeated / split) for every seed; measured programs: every qubit in |+>, 1..3 keys each measured 1..3 times on the same qubits in the same / '
+                'another order, on other qubits, with invert masks that follow the qubits / stay in place / differ, with tags (a fixed grid of 2..4 qubits x order x mask x 2..3 instances for '
+                'every seed), simulated with 1..16 repetitions and judged bit by bit against the records; arrays: every element type x 10 shapes (0-d, empty, 1..3 axes, square) x 15 memory '
+                'layouts (C, Fortran-allocated, asfortranarray, transposed, every axis permutation of 3 axes, strided, reversed, windowed, broadcast, swapped byte order) for every seed plus '
+                'random axis permutations / steps / offsets, through the helpers with widening, arg_to_proto, InternalGate / InternalTag arguments and whole programs; non-trivial array = at least '
+                'two axes, four elements and not C-contiguous; every pair of device qubits in both orders goes '
                 'before validate_operation; non-trivial = the specification has a coupling or a two-id target outside SYMMETRIC sets')
     ctx.assumptions += ['vf/checks/c16.py adapters calling cirq_google and canonicalising outputs',
                         'protobuf and numpy are trusted', 'leaf identifiers are assigned by Python equality/hash']
@@ -2135,6 +2700,8 @@ def streams(ctx, cirq, cg, v2, q):
     for shard in range(0, nc, 150):
         out.append(('circuits', lambda shard=shard: circuits_stream(ctx, cirq, cg, min(150, nc - shard), shard)))
     out.append(('multi', lambda: multi_stream(ctx, cirq, cg, 25 if q else 250)))
+    out.append(('measured_programs', lambda: measured_programs_stream(ctx, cirq, v2, 150 if q else 2500)))
+    out.append(('ndarrays', lambda: ndarrays_stream(ctx, cirq, cg, 200 if q else 3000)))
     out.append(('qubit_ids', lambda: qubit_ids_stream(ctx, cirq, cg, v2, 300 if q else 3000)))
     out.append(('unit_values', lambda: unit_values_stream(ctx, cirq, cg, v2, 60 if q else 400)))
     out.append(('sweeps', lambda: sweeps_stream(ctx, cirq, cg, v2, 250 if q else 2500)))
@@ -2210,6 +2777,15 @@ def replay(ctx, data):
                    for t in sw] for sw in data['sweeps']]
         back = v2.results_from_proto(v2.results_to_proto(sweeps, ms), ms)
         return all(np.array_equal(b.records[m.key], t.records[m.key]) for sw, bsw in zip(sweeps, back) for t, b in zip(sw, bsw) for m in ms)
+    if k == 'measured_program':
+        c = eval(data['literal'], ns)
+        status, problems = judge_measured_program(cirq, v2, c, data['repetitions'], data['sim_seed'])
+        print('find_measurements:', status)
+        for sig, what in problems:
+            print(sig, '|', what[:800])
+        return not problems
+    if k == 'ndarray':
+        return replay_ndarray(cirq, cg, data)
     if k == 'device':
         from cirq_google.devices import grid_device as gd
         fam = {gr.gate_spec_name: gr.supported_gates for gr in gd._GATES}
